@@ -424,6 +424,13 @@ func cmdCheck(args []string) int {
 		}
 	}
 	if thorough {
+		if files := leanFilesFor(prop); len(files) > 0 {
+			lr := checkLean(*verif, files)
+			cov["lemmas_checked_by_lean"] = lr
+			for _, l := range lr.Lines {
+				fmt.Println(l)
+			}
+		}
 		st := selfTest(*verif, *repo, prop, work)
 		cov["must_fail_corpus"] = st
 		for _, l := range st.Lines {
